@@ -63,6 +63,13 @@ type script struct {
 	RespLen    string   `json:"resp_len_file,omitempty"` // write the length of the valid response here
 }
 
+// hasTrailer looks for the include-compression trailer in the raw request bytes, independently
+// of the code under test: <feature byte with bit 0 set> "\xffTHRIFTGO_TRAILER_V1\xff" at the end.
+func hasTrailer(data []byte) bool {
+	const tr = "\xffTHRIFTGO_TRAILER_V1\xff"
+	return len(data) > len(tr) && strings.HasSuffix(string(data), tr) && data[len(data)-len(tr)-1]&1 == 1
+}
+
 func writeFile(path string, b []byte) {
 	if path == "" {
 		return
@@ -141,7 +148,7 @@ func main() {
 		d := c11canon.Of(req, full)
 		d.Extra = map[string]interface{}{
 			"rawlen":  len(data),
-			"trailer": plugin.VerifHasCompressTrailer(data),
+			"trailer": hasTrailer(data),
 		}
 		writeFile(dumpF, c11canon.JSON(d))
 	}
